@@ -88,7 +88,19 @@ func ExecuteFree(sc *Scenario, tape *Tape) string {
 			}
 		}
 		done := make(chan error, 1)
-		go func() { done <- r.streamer.Stream(ctx, r.freeHandler) }()
+		go func() {
+			defer func() {
+				// the application's own callback panicked (plan.EnvPanic) and the
+				// application recovers around its Stream call
+				if p := recover(); p != nil {
+					if p != envPanicValue {
+						panic(p)
+					}
+					done <- envPanicValue
+				}
+			}()
+			done <- r.streamer.Stream(ctx, r.freeHandler)
+		}()
 		var serr error
 		select {
 		case serr = <-done:
@@ -140,6 +152,9 @@ func (r *Run) freeHandler(tx *gobinlog.Transaction) error {
 		}
 	}
 	if plan.Stop == stopHandlerErr && n == plan.CallIndex {
+		if plan.EnvPanic {
+			panic(envPanicValue)
+		}
 		return errHandler
 	}
 	if plan.Stop == stopCancel && r.free.cancelMode == 2 && n >= 1+plan.CancelAfter/4 {
